@@ -33,7 +33,7 @@ TOL = 1e-9
 def bound(tier):
     q = tier == "quick"
     return dict(kinds=["positive", "complex", "mixed"], N=[1, 4], pos_batch_size=[1, 4], neg_batch_size=["default", 1, 2, 3], k=[0, 3],
-                lr_scheduler=[[0.1, "none"], [1.0, "StepLR(gamma=0.5)"]] + ([] if q else [[0.1, "StepLR(gamma=0.5)"]]), epochs=[1, 2],
+                lr_scheduler=[[0.1, "none"], [1.0, "StepLR(gamma=0.5)"]] + ([] if q else [[0.1, "StepLR(gamma=0.5)"]]), epochs=[1, 2], starting_epoch="1; 3 (three epochs) for scheduler runs",
                 shuffle="default + every 1-deviation (all N! perms, structured randint menu) for N<=3, default for N=4",
                 bernoulli="two deterministic scripts; all outcomes for nv=nh=1, N=1, k<=2")
 
@@ -58,6 +58,9 @@ def plan(tier, seed):
                                     if N == 4 and (k == 3 or nb == 2):
                                         continue
                                 cfgs.append(dict(kind=kind, N=N, pb=pb, nb=nb, k=k, lr=lr, sched=sched, epochs=ep, script=(len(cfgs) % 2)))
+                                if sched and ep == 2 and k == 1 and nb in (None, 2):
+                                    # continuing a run: the schedule advances once per epoch wherever the epoch numbering starts
+                                    cfgs.append(dict(kind=kind, N=N, pb=pb, nb=nb, k=k, lr=lr, sched=sched, epochs=3, e0=3, script=(len(cfgs) % 2)))
     items = [dict(layer="fits", configs=cfgs[j:j + 6]) for j in range(0, len(cfgs), 6)]
     for kind in ("positive", "complex", "mixed"):
         for k in (1, 2):
@@ -128,6 +131,7 @@ def reference_update(kind, n, before_named, pos, neg_end, bases_rows, eps):
 
 def run_fit(cfg, tape, acc, bern="script", st=None, shared=None):
     kind, N, pb, nb, k, lr, ep = cfg["kind"], cfg["N"], cfg["pb"], cfg["nb"], cfg["k"], cfg["lr"], cfg["epochs"]
+    e0 = cfg.get("e0", 1)
     n = cfg.get("n", 2)
     L = lib()
     if st is not None:
@@ -162,7 +166,7 @@ def run_fit(cfg, tape, acc, bern="script", st=None, shared=None):
     out = []
     try:
         with Owned(dec):
-            call(st.fit, data, epochs=ep, pos_batch_size=pb, neg_batch_size=nb, k=k, lr=lr, optimizer=make_rec(log), callbacks=[cb], **kw)
+            call(st.fit, data, epochs=e0 + ep - 1, starting_epoch=e0, pos_batch_size=pb, neg_batch_size=nb, k=k, lr=lr, optimizer=make_rec(log), callbacks=[cb], **kw)
     except LibRaised as e:
         return [(f"cd:fit-raised:{e.kind}", dict(tb=e.tb))], 0
     nb_total = math.ceil(N / pb) * ep
@@ -295,7 +299,7 @@ def replay(case):
             d = dict(detail or {})
             acc.viol(sig, case, observed=d.pop("observed", None), expected=d.pop("expected", None), detail=d)
         return acc
-    cfg = {k: case[k] for k in ("kind", "N", "pb", "nb", "k", "lr", "sched", "epochs", "script") if k in case}
+    cfg = {k: case[k] for k in ("kind", "N", "pb", "nb", "k", "lr", "sched", "epochs", "script", "e0") if k in case}
     if "n" in case:
         cfg["n"] = case["n"]
     tp, (viols, steps) = T.replay(lambda t: run_fit(cfg, t, acc, case.get("bern", "script")), case["tape"])
